@@ -341,7 +341,10 @@ def _validate_params_with_signature(
         if signature_param.kind in (inspect.Parameter.POSITIONAL_ONLY, inspect.Parameter.POSITIONAL_OR_KEYWORD):
             if signature_param.default == inspect.Parameter.empty:
                 raise TypeError(f"missing a required argument: '{param_name}'")
-            elif len(validated_args) <= next_positional_index:
+            elif (
+                signature_param.kind != inspect.Parameter.POSITIONAL_ONLY
+                and len(validated_args) <= next_positional_index
+            ):
                 validated_kwargs[param_name] = signature_param.default
         elif signature_param.kind == inspect.Parameter.KEYWORD_ONLY:
             if signature_param.default == inspect.Parameter.empty:
@@ -380,6 +383,7 @@ def _validate_params_with_code(
     skip_params = 2
     param_names = param_names[skip_params:]
     positional_count = max(0, positional_count - skip_params)
+    posonly_count = max(0, getattr(code, "co_posonlyargcount", 0) - skip_params)
 
     # Calculate required counts
     num_defaults = len(defaults)
@@ -447,7 +451,7 @@ def _validate_params_with_code(
         if i < positional_count:  # Positional parameter
             if i < required_positional:
                 raise TypeError(f"missing a required argument: '{param_name}'")
-            elif len(validated_args) <= i:
+            elif i >= posonly_count and len(validated_args) <= i:
                 default_index = i - required_positional
                 validated_kwargs[param_name] = defaults[default_index]
         elif i < positional_count + kwonly_count:  # Keyword-only parameter
